@@ -209,7 +209,8 @@ def stream_penc(ctx, ncases):
             if obad:
                 ctx.oracle_fail("periodic enclosing_points_1d/interpolation_weights_1d: " + obad, rep_j)
                 break
-            if (i0, i1) != (mi0, mi1) or not C.close(wl1, mfl, 1e-12, 1e-13) or not C.close(wn1, mfn, 0, 0):
+            if (i0, i1) != (mi0, mi1) or not C.close(wl1, mfl, 1e-12, 1e-13) or \
+                    (t != Fraction(1, 2) and not C.close(wn1, mfn, 0, 0)):
                 ctx.disagree("periodic enclosing/weights differ from the model: impl %s %r/%r, model %s %r/%r" %
                              ((i0, i1), wl1, wn1, (mi0, mi1), mfl, mfn), rep_j)
                 break
@@ -440,6 +441,15 @@ def stream_paxis(ctx, ncases):
             grows = B.rows_of(got, inf["axis"])
             if np.isfinite(got).any():
                 nontriv = True
+            if m["nearest"]:
+                if m["period"] is not None:
+                    ties = set(j for j, x in enumerate(xs) if cyclic_bracket(m["grid"], x, m["period"])[2] == Fraction(1, 2))
+                else:
+                    ties = B.tie_indices(m["grid"], xs)
+                if ties:
+                    ctx.tally("nearest-mode ties excluded from the model comparison", len(ties))
+                    got = B.blank_rows(got, inf["axis"], ties)
+                    want = B.blank_rows(want, inf["axis"], ties)
             ctx.tally("paxis-var:%s" % ("angular" if inf["periodic"] else "plain"))
             ctx.tally("paxis-nan:%s" % inf["nan"])
             bad = False
@@ -496,6 +506,28 @@ def stream_paxis(ctx, ncases):
                             continue
                         k = max(q for q in range(len(g) - 1) if g[q] <= x)
                         i0, i1 = order[k], order[k + 1]
+                        t = (Fraction(x) - Fraction(g[k])) / (Fraction(g[k + 1]) - Fraction(g[k]))
+                    # NaN rule for angular data: exactly one neighbour present
+                    v0 = all(not isnan(v) for v in rows[i0])
+                    v1 = all(not isnan(v) for v in rows[i1])
+                    if v0 != v1:
+                        wvalid = (1 - t) if v0 else t
+                        src_row = rows[i0] if v0 else rows[i1]
+                        for p_ in range(len(rows[0])):
+                            r = grows[j][p_]
+                            if wvalid > Fraction(1, 2):
+                                okk = (not isnan(r)) and angdiff(r, src_row[p_], Pd) <= 1e-4 * Pd / 360.0
+                            else:
+                                okk = isnan(r)
+                            if not okk:
+                                ctx.oracle_fail("variable %s at %s=%r: one neighbour is missing and the present one has weight %r: result %r, expected %s" %
+                                                (nm, m["cname"], x, float(wvalid), r, src_row[p_] if wvalid > Fraction(1, 2) else "missing"),
+                                                dict(rep, variable=nm, target_index=j))
+                                bad = True
+                                break
+                        if bad:
+                            break
+                        continue
                     for p_ in range(len(rows[0])):
                         a0, a1, r = rows[i0][p_], rows[i1][p_], grows[j][p_]
                         if isnan(a0) or isnan(a1) or isnan(r):
@@ -534,6 +566,119 @@ def stream_paxis(ctx, ncases):
         if ci < 2:
             ctx.sample({"interpolate_dataset_along_axis": {"coord": m["cname"], "period": m["period"], "grid": m["grid"][:6],
                                                             "targets": xs[:6], "variables": m["info"]}})
+
+
+# ---------------------------------------------------------------------------------------------
+# interpolate_dataset_grid with angular variables: two coordinates in turn, periodic_data by
+# default names and given explicitly
+# ---------------------------------------------------------------------------------------------
+
+
+def stream_pgrid(ctx, ncases):
+    rng = ctx.rng
+    cases, metas = [], []
+    for _ in range(ncases):
+        explicit = rng.random() < 0.5
+        Pd = rng.choice([360.0, 360.0, 400.0, 24.0]) if explicit else 360.0
+        second_periodic = rng.random() < 0.4
+        c1 = "time" if rng.random() < 0.5 else "x"
+        k1 = "time" if c1 == "time" else "float"
+        g1 = B.gen_grid(rng, rng.choice([2, 3, 5]), k1)
+        if second_periodic:
+            c2, k2, per2 = "direction", "float", 360.0
+            g2 = gen_pgrid(rng, 360.0, 4, 12)
+            t2 = [v for _, v in gen_ptargets(rng, g2, 360.0, rng.randint(1, 4))]
+        else:
+            c2, k2, per2 = "y", "float", None
+            g2 = B.gen_grid(rng, rng.choice([2, 3, 4]))
+            t2 = [B.lat(rng, g2[0], g2[-1], 64) for _ in range(rng.randint(1, 4))]
+        # targets inside the non periodic grids (an outside target would blank whole nodes of the next axis)
+        if k1 == "time":
+            t1 = [float(rng.randint(int(g1[0]), int(g1[-1]))) for _ in range(rng.randint(1, 4))]
+        else:
+            t1 = [B.lat(rng, g1[0], g1[-1], 64) for _ in range(rng.randint(1, 4))]
+        dims = [c1, c2]
+        if rng.random() < 0.5:
+            dims.reverse()
+        shape = [len(g1) if d == c1 else len(g2) for d in dims]
+        den = 8 if Pd >= 24 else 256
+        base = rng.choice([0.0, Pd, Pd / 2, B.lat(rng, 0, Pd, den)])
+        spread = Pd / 12
+        ang = np.array([base + B.lat(rng, -spread, spread, den) for _ in range(shape[0] * shape[1])]).reshape(shape)
+        conv = rng.choice(["0..P", "-P/2..P/2"])
+        ang = ang % Pd if conv == "0..P" else (ang + Pd / 2) % Pd - Pd / 2
+        plain = np.array([C.dyadic(rng, -8, 8, 10) for _ in range(shape[0] * shape[1])]).reshape(shape)
+        aname = rng.choice(["heading", "course"]) if explicit else rng.choice(["mean_direction", "peakDirection"])
+        coords = {c1: B.coord_desc(k1, g1), c2: B.coord_desc(k2, g2)}
+        order = [[c1, B.tgt(k1, t1)], [c2, B.tgt(k2, t2)]]
+        if rng.random() < 0.5:
+            order.reverse()
+        case = {"op": "ds_grid", "nearest": False, "targets": order,
+                "ds": {"coords": coords, "vars": [{"name": aname, "dims": dims, "shape": shape, "data": B.hexlist(ang)},
+                                                  {"name": "u", "dims": dims, "shape": shape, "data": B.hexlist(plain)}]}}
+        if explicit:
+            case["periodic_data"] = {aname: [Pd, Pd]}
+        cases.append(case)
+        metas.append({"dims": dims, "order": [o[0] for o in order], "grids": {c1: g1, c2: g2}, "tvals": {c1: t1, c2: t2},
+                      "periods": {c1: None, c2: per2}, "ang": ang, "plain": plain, "aname": aname, "Pd": Pd,
+                      "base": base, "spread": spread, "explicit": explicit})
+    impl = ctx.impl("C14.py", {"cases": cases})["results"]
+    state = [{"a": m["ang"], "u": m["plain"], "minmag": 1.0} for m in metas]
+    for step in range(2):
+        jobs, where = [], []
+        for ci, m in enumerate(metas):
+            d = m["order"][step]
+            ax = m["dims"].index(d)
+            for key, dper in (("a", m["Pd"]), ("u", None)):
+                arr_ = state[ci][key]
+                jobs.append(B.AxisJob(m["grids"][d], B.rows_of(arr_, ax), m["tvals"][d], False,
+                                      period=m["periods"][d], dper=dper))
+                where.append((ci, key, ax))
+        res = B.run_axis_jobs(ctx, jobs, periodic_driver=True)
+        for (ci, key, ax), (rows, vec) in zip(where, res):
+            arr_ = state[ci][key]
+            state[ci][key] = B.from_rows(rows, list(arr_.shape), ax)
+            if vec is not None:
+                for r in vec:
+                    for (re, im_) in r:
+                        if not isnan(re):
+                            state[ci]["minmag"] = min(state[ci]["minmag"], math.hypot(re, im_))
+    for c, m, im, st in zip(cases, metas, impl, state):
+        rep = {"op": "interpolate_dataset_grid", "case": c}
+        ctx.tally("pgrid:%s" % ("explicit periodic_data" if m["explicit"] else "default names"))
+        ctx.tally("pgrid:second-axis-%s" % ("periodic" if m["periods"][m["dims"][0]] or m["periods"][m["dims"][1]] else "plain"))
+        if isinstance(im, dict) and "error" in im:
+            ctx.oracle_fail("interpolate_dataset_grid raised %s: %s" % (im["error"], im["msg"]), rep)
+            ctx.count(["pgrid", c], False)
+            continue
+        ctx.count(["pgrid", c], True)
+        got = B.unhexarr(im["vars"][m["aname"]])
+        gu = B.unhexarr(im["vars"]["u"])
+        Pd = m["Pd"]
+        # oracle: all data lie within +-spread of `base`, so must every interpolated angle (short arcs only)
+        bad = False
+        for v in got.reshape(-1):
+            if isnan(v) or angdiff(v, m["base"], Pd) > m["spread"] + 1e-3 * Pd / 360.0 or not (-1e-9 <= v <= Pd + 1e-9):
+                ctx.oracle_fail("interpolate_dataset_grid: angular variable %s = %r although all its data lie within %r of %r (period %r): "
+                                "not interpolated along the shorter arc / not in [0, period)" % (m["aname"], float(v), m["spread"], m["base"], Pd),
+                                dict(rep, variable=m["aname"]))
+                bad = True
+                break
+        if bad:
+            continue
+        badi = B.close_arrays(gu, st["u"], B.data_scale(m["plain"]))
+        if badi is not None:
+            ctx.disagree("interpolate_dataset_grid: variable u differs from the model at flat index %s" % badi, dict(rep, variable="u"))
+            continue
+        if list(got.shape) != list(st["a"].shape):
+            ctx.oracle_fail("interpolate_dataset_grid: %s has shape %s" % (m["aname"], list(got.shape)), rep)
+            continue
+        tol = 1e-4 * (Pd / 360.0) / max(st["minmag"], 0.05)
+        for q, (g, w) in enumerate(zip(got.reshape(-1), st["a"].reshape(-1))):
+            if isnan(g) != isnan(w) or (not isnan(g) and angdiff(g, w, Pd) > tol):
+                ctx.disagree("interpolate_dataset_grid: angular variable %s differs from the model at flat index %d: %r vs %r" %
+                             (m["aname"], q, float(g), float(w)), dict(rep, variable=m["aname"]))
+                break
 
 
 # ---------------------------------------------------------------------------------------------
@@ -1018,6 +1163,7 @@ def run(ctx):
     stream_wdiff(ctx, ctx.n(40, 1500))
     stream_penc(ctx, ctx.n(120, 5000))
     stream_paxis(ctx, ctx.n(150, 6000))
+    stream_pgrid(ctx, ctx.n(40, 1500))
     stream_pspectra(ctx, ctx.n(40, 1500))
     stream_ppoints(ctx, ctx.n(60, 2500))
     stream_iper(ctx, ctx.n(150, 6000))
